@@ -244,6 +244,21 @@ pub fn gen_case(prop: &str, seed: u64, tier: &str, run: u64) -> Case {
             }
         }
         "C17" => return gen_c17(&mut rng, run),
+        "C18" if run > 5 && rng.chance(1, if thorough { 100 } else { 150 }) => {
+            // whether a blob can be placed at the path derived from its hash must not depend on the
+            // hash: first-time initialisation with the pre-created fan-out tree, killed inside the 65 792
+            // mkdirs, then used (same run class as C03 / C19; seeded change C18-e)
+            p = crash_profile(thorough);
+            p.max_ops = 4;
+            p.w_reopen = 0;
+            let mut steps: Vec<u64> = (0..4).map(|_| 1 + rng.below(66_200)).collect();
+            steps.push(66_000 + rng.below(60));
+            mode = Mode::Crash { cuts: CutSel::Steps(steps), depth: 1, suffix_every: 1, verify: false };
+            let mut workload = gen_workload(&mut rng, &p);
+            workload.cfg.pre_create = true;
+            workload.cfg.async_mode = false;
+            return Case { property: prop.to_string(), workload, noise: None, mode };
+        }
         "C18" if run > 5 && rng.chance(1, 5) => {
             // placement must not trust what already sits at the path: images with a stale file at the
             // hash path of a known content, which is then committed (orphans.rs, C08's machinery)
